@@ -615,8 +615,18 @@ var notedInternal bool
 var maxAlloc uint64
 var maxAllocLine string
 
+// hangs: every hung case leaves a goroutine spinning in the real code for the rest of the run; after a few of them the
+// remaining cases are not run (the failures found so far are reported, the machine is not saturated)
+var hangs int
+
+const maxHangs = 6
+
 // runLine: the single path every case takes (generated or replayed).
 func runLine(line string, tags []string) {
+	if hangs >= maxHangs {
+		out.Count("not-run-after-hangs")
+		return
+	}
 	c := parseLine(line)
 	// a 'b' cursor must not parse, a 'c' cursor must parse back to the same numbers (generator sanity)
 	if c.cur != "-" {
@@ -645,6 +655,9 @@ func runLine(line string, tags []string) {
 		runtime.ReadMemStats(&m0)
 	}
 	r := runGuarded(c, req)
+	if r.class == "hang" {
+		hangs++
+	}
 	if measure {
 		var m1 runtime.MemStats
 		runtime.ReadMemStats(&m1)
